@@ -86,6 +86,43 @@ Example C10_storage_ex_rejected :
                    (FetchConsumers 1))).
 Proof. exact ex_rejected. Qed.
 
+(* C10, storage: acceptConsumerGroup as a function of the four booleans — block for props/C10.v.
+   Needs `From Burrow Require Import Int64 Eval AMap Ring Storage StorageDelProofs.` (already required by the storage block).
+   Compile-checked against StorageDelProofs.v by builder "del". *)
+
+(* inmemory.go acceptConsumerGroup (two guarded returns): all 16 combinations — a group is tracked by storage exactly when it
+   matches the allowlist (if one is set) and does not match the denylist (if one is set) *)
+Theorem C10_accept_spec_storage : forall a_set a_m d_set d_m,
+  storage_accept a_set a_m d_set d_m = true <->
+  (a_set = true -> a_m = true) /\ (d_set = true -> d_m = false).
+Proof. exact storage_accept_spec. Qed.
+Print Assumptions C10_accept_spec_storage.
+
+Theorem C10_accept_formula_storage : forall a_set a_m d_set d_m,
+  storage_accept a_set a_m d_set d_m = (negb a_set || a_m) && negb (d_set && d_m).
+Proof. exact storage_accept_formula. Qed.
+Print Assumptions C10_accept_formula_storage.
+
+(* storage with real lists: for arbitrary match functions of the two patterns, a group that fails the allowlist (when set) or
+   matches the denylist (when set) never enters storage and is never shown — every ingestion path, every history *)
+Theorem C10_storage_lists_enforced :
+  forall cf a_set allow d_set deny cls g h s reps,
+    (a_set = true /\ allow g = false) \/ (d_set = true /\ deny g = true) ->
+    run (with_lists cf a_set allow d_set deny) (init_state cls) h = Some (s, reps) ->
+    (forall c cl, get s c = Some cl -> get (cl_consumer cl) g = None) /\
+    Forall2 (fun nr rep => forall c, ~ mentions_group c g (snd nr) rep) h reps.
+Proof. exact storage_lists_enforced. Qed.
+Print Assumptions C10_storage_lists_enforced.
+
+(* ... and every request of a group the lists accept is processed exactly as by a storage module without lists *)
+Theorem C10_storage_lists_accepted_unfiltered :
+  forall cf a_set allow d_set deny now s r,
+    (forall g, ingest_group r = Some g -> (a_set = true -> allow g = true) /\ (d_set = true -> deny g = false)) ->
+    step (with_lists cf a_set allow d_set deny) now s r = step (no_lists cf) now s r.
+Proof. exact storage_lists_accepted_unfiltered. Qed.
+Print Assumptions C10_storage_lists_accepted_unfiltered.
+
+
 (* ---- offsets-topic reader: for ALL key/value byte strings, every request it forwards is for an accepted group ---- *)
 Theorem C10_reader_rejected_silent : forall (accept : list Z -> bool) key value o rs al,
   Wire.process_message accept key value o = Wire.Done rs al ->
